@@ -84,8 +84,27 @@ impl IntoData for i64 {
 
 impl IntoData for i128 {
     fn as_data(&self) -> PlutusData {
-        let int = Int::try_from(*self).unwrap();
-        PlutusData::BigInt(BigInt::Int(int))
+        if let Ok(int) = Int::try_from(*self) {
+            return PlutusData::BigInt(BigInt::Int(int));
+        }
+
+        // beyond the range of a plain CBOR integer we need the bignum encodings,
+        // where a negative n is represented by the magnitude of -1 - n
+        let (magnitude, negative) = if *self >= 0 {
+            (*self as u128, false)
+        } else {
+            (!*self as u128, true)
+        };
+
+        let bytes = magnitude.to_be_bytes();
+        let first = bytes.iter().position(|b| *b != 0).unwrap_or(bytes.len());
+        let bytes = BoundedBytes::from(bytes[first..].to_vec());
+
+        if negative {
+            PlutusData::BigInt(BigInt::BigNInt(bytes))
+        } else {
+            PlutusData::BigInt(BigInt::BigUInt(bytes))
+        }
     }
 }
 
